@@ -27,7 +27,7 @@ CLASS_LAYER = [PA + 'Pauli.__matmul__#Pauli', PA + 'Pauli.__neg__', PA + 'Pauli.
                'pyclifford/circuit.py::CliffordGate.forward#map_global'] + GATES[3:] + LOCAL_GATES + LOCAL_STATE + \
               [PA + '%s.__rmul__#%s' % (c, t) for c in ('Pauli', 'PauliList') for t in ('1', 'i', 'm1', 'mi')] + \
               [PA + 'pauli#codes', PA + 'pauli#chars', PA + 'pauli#str', PA + 'PauliList.__getitem__#mask', PA + 'PauliList.__getitem__#slice', PA + 'PauliList.__getitem__#index'] + \
-              RANDOM_STATE + RANDOM_CLIFFORD[:2] + CASTS + MBACK
+              RANDOM_STATE + RANDOM_CLIFFORD[:2] + CASTS + MBACK + ['pyclifford/circuit.py::CliffordGate.copy#generator', 'pyclifford/circuit.py::CliffordGate.copy#maps', ST + 'StabilizerState.sample']
 
 # every kernel that currently has a discharged contract (their frame.* obligations are the C17 frame conditions)
 MEASURE_LEMMAS = ['ordp_parity', 'xzpartial_full', 'selacq_map', 'selacq_image', 'partnersum_acq', 'transform_preserves_acq', 'acq_diff2', 'onsite_flat', 'acq_bilinear', 'acq_antisym', 'ipow_parity', 'ordg_bits', 'acq_zero', 'ordg_acq', 'selacq_gram', 'acqsum_ext',
@@ -226,7 +226,7 @@ def C17(run):
         run.generator_selftest()
     run.bounded_check('c17_copies', _b().c17_copies, Nmax=3, rounds=q(run, 20, 500))
     return 'other', ('deductive (all N): the frame condition (modifies clause) of every kernel under contract: arguments not listed are '
-                     'unchanged, results are fresh or exactly the in-place arguments; bounded: copy of every object kind, query methods with '
+                     'unchanged, results are fresh or exactly the in-place arguments; copies of Paulis, lists, polynomials, maps, states and GATES (generator / both maps) share no array with the original; bounded: copy of layers and circuits, query methods with '
                      'before/after snapshots')
 
 
@@ -243,9 +243,11 @@ def C18(run):
 
 
 def C19(run):
-    run.deductive(keys=[U + 'pauli_combine'], lemmas=['ipowsum_ext'])
+    run.deductive(keys=[U + 'pauli_combine', ST + 'StabilizerState.sample', ST + 'StabilizerState.copy', ST + 'zero_state'], lemmas=['ipowsum_ext'])
     run.bounded_check('c19_sampling', _b().c19_sampling, Nmax=3, count=q(run, 15, 300))
-    return 'other', ('deductive: sample() rows are ordered products (pauli_combine contract); bounded: membership with sign, density-matrix '
+    return 'other', ('deductive (all N, every draw): every row returned by StabilizerState.sample is the ordered product of the ACTIVE stabilizers selected by a bit row of the drawn '
+                     'matrix, with the phase of that product (ghost witness: the local C; through the contract of pauli_combine), the state is not modified; copy / zero_state as used '
+                     'by the snapshot code are faithful / valid; bounded: expectation +1 of every sampled operator, uniformity, density-matrix '
                      'expansion, classical-shadow snapshots')
 
 
@@ -284,6 +286,6 @@ TECHNIQUE = {
     'C16': 'deductive validity for every RNG draw (z3): random_pair, random_pauli / random_pauli_map, pauli_diagonalize2, the recursive sampler random_clifford (induction over its recursion), random_clifford_map, the random states and the resampling gate; bounded validity of the circuit constructors and chi-square counting on finite groups',
     'C17': 'deductive frame conditions (modifies clauses, freshness of results) of every function under contract (z3); bounded snapshot checks for copies and queries of the class layer',
     'C18': 'deductive contracts (z3): front / pauli_is_onsite / pauli_diagonalize1 / pauli_diagonalize2 / condense / clifford_rotation_gate (gate of G = rotation by G); bounded exhaustive diagonalisation check, SBRG',
-    'C19': 'deductive contract on pauli_combine (sampled rows are ordered products); bounded membership / expansion / shadow checks',
+    'C19': 'deductive contracts (z3): StabilizerState.sample returns signed ordered products of the active stabilizers for every draw (ghost witness), pauli_combine; bounded membership by expectation / expansion / shadow checks',
     'C20': 'deductive contracts (z3): pauli_tokenize, the parser pauli() on code arrays / letter lists / strings (loop invariant, all lengths), tokenize-then-parse and string-vs-codes lemmas, unit multiplication, negation, selection by integer / slice / boolean mask / index array; exhaustive parse / print round trips per N for dictionaries and printing',
 }
